@@ -237,6 +237,23 @@ def random_digits(rng):
 BLANKS = [0.0, None, 0.0, -1.0, 7]
 
 
+def check_read_function_entries(ctx, ff, text, style):
+    """The dictionary handed to the parsers as read_function=fortran_read_function: every real kind ('f', 'e', 'g')
+    must read a field exactly as fortran_float with blank_value None does, the integer kind as fortran_int."""
+    want = ff.fortran_float(text, None)
+    for kind in ('f', 'e', 'g'):
+        case = {'reader': 'fortran_read_function[%s]' % kind, 'text': text, 'style': style}
+        try:
+            got = ff.fortran_read_function[kind](text)
+        except BaseException as e:  # noqa
+            ctx.violation('raises:fortran_read_function:%s' % kind, '%r raised %r' % (text, e), case)
+            continue
+        ctx.count('read_function_entries_checked')
+        same = (got is None and want is None) or (got is not None and want is not None and (got == want or (got != got and want != want)))
+        if not same:
+            ctx.violation('wrong-value:fortran_read_function:%s' % kind, 'fortran_read_function[%r](%r) = %r, fortran_float gives %r' % (kind, text, got, want), case)
+
+
 def run_gen(ctx, spec):
     ff = R.fixed_format_file
     rng = ctx.rng
@@ -253,6 +270,8 @@ def run_gen(ctx, spec):
         blank = rng.choice(BLANKS[:3])
         check_float(ctx, ff, text, blank, truth, style, 'rendered')
         ctx.count('rendered_checked')
+        if i % 7 == 0:
+            check_read_function_entries(ctx, ff, text, style)
         if rng.random() < 0.1 and truth is not None:
             # number-biased mutation of a valid rendering
             check_float(ctx, ff, mutate(rng, text), blank, None, 'mutated', 'mutated')
